@@ -42,34 +42,19 @@ MAX_NORMALISE_CHARS = 400000
 
 
 class PolyOb(Ob):
-    """got - exp == 0 with the difference already in normal form.
+    """got - exp == 0, given as a list of real terms `terms` (each must be 0).
 
-    Holds side: the query is the full disjunction `some entry != 0` (literal `false` when every entry
-    normalised to 0).  Violation side (DESIGN 2.3, instance search): a non-zero normal form is a non-zero
-    polynomial, but nlsat is erratic at producing a witness for `p != 0`; so a point is looked for by exact
-    evaluation of one non-zero entry at small integer points, and when one is found the query becomes
-    `full AND variables == point` -- an instance of the full query, satisfiable by construction.  The point
-    only involves variables that do not occur in the path condition / assumptions (checked), so pinning
-    them cannot hide a violation, and `unsat` is never produced by an instance."""
+    Holds side: the query is the full disjunction `some term != 0` (literal `false` when every term
+    normalised to 0).  Violation side (DESIGN 2.3, instance search): nlsat is erratic at producing a witness
+    for `p != 0`, so a point is looked for by exact evaluation of the terms at small integer points; when
+    one is found the query becomes `full AND variables == point` -- an instance of the full query,
+    satisfiable by construction.  The point only involves variables that do not occur in the path
+    condition / assumptions (checked), so pinning them cannot hide a violation, and `unsat` is never
+    produced by an instance."""
 
-    def __init__(self, label, diff, key=None, side_formulas=(), seed=0):
-        Ob.__init__(self, label, "eq", got=diff, exp=None, key=key)
-        self.terms = []
-        self.concrete_bad = False
-        for idx in np.ndindex(*diff.shape):
-            v = diff[idx]
-            for p in (v.re, v.im):
-                if isinstance(p, Fraction):
-                    if p != 0:
-                        self.concrete_bad = True
-                else:
-                    self.terms.append(p)
-        self.exp = np.empty(diff.shape, dtype=object)
-        for idx in np.ndindex(*diff.shape):
-            self.exp[idx] = S(0)
-        self.point = None
-        if self.terms and not self.concrete_bad:
-            self.point = _find_point(self.terms, side_formulas, seed)
+    def __init__(self, label, got, exp, terms, concrete_bad, point, key=None):
+        Ob.__init__(self, label, "eq", got=got, exp=exp, key=key)
+        self.terms, self.concrete_bad, self.point = terms, concrete_bad, point
 
     def violation_formula(self):
         if self.concrete_bad:
@@ -82,26 +67,45 @@ class PolyOb(Ob):
         return full
 
 
-def _find_point(terms, side_formulas, seed, tries=40):
+def _diff_terms(g, e):
+    terms, bad = [], False
+    for idx in np.ndindex(*g.shape):
+        d = S.of(g[idx]) - S.of(e[idx])
+        for p in (d.re, d.im):
+            if isinstance(p, Fraction):
+                bad = bad or p != 0
+            else:
+                terms.append(p)
+    return terms, bad
+
+
+def _find_point(terms, side_formulas, seed=0, tries=2):
+    """small integer point at which some term is non-zero (exact evaluation), or None"""
     import random
     from .sym import free_vars
-    term = min(terms, key=lambda t: len(t.sexpr()))
-    vs = free_vars(term)
+    vs = free_vars(*terms)
     side_names = {str(v) for v in free_vars(*side_formulas)} if side_formulas else set()
-    if any(str(v) in side_names or str(v).startswith("sqrt_") or v.sort().kind() != z3.Z3_REAL_SORT for v in vs):
+    if any(str(v) in side_names or str(v).startswith(("sqrt_", "div!")) or v.sort().kind() != z3.Z3_REAL_SORT for v in vs):
+        return None
+    if any(t.decl().kind() == z3.Z3_OP_UNINTERPRETED and t.num_args() > 0 for t in terms):
         return None
     rnd = random.Random(seed)
     for k in range(tries):
-        span = 2 if k < 10 else 5
+        span = 3
         sub = [(v, z3.RealVal(rnd.choice([x for x in range(-span, span + 1) if x != 0]))) for v in vs]
-        val = z3.simplify(z3.substitute(term, *sub))
-        if z3.is_rational_value(val) and val.numerator_as_long() != 0:
-            return sub
+        for t in terms:
+            val = z3.simplify(z3.substitute(t, *sub))
+            if z3.is_rational_value(val):
+                if val.numerator_as_long() != 0:
+                    used = {str(v) for v in free_vars(t)}
+                    return [(v, x) for v, x in sub if str(v) in used]
+            else:
+                return None            # not a polynomial in plain variables: no instance search
     return None
 
 
 def ob_eq_poly(inp, label, got, exp, key=None):
-    """Ob for got == exp; symbolic mode: normalised difference == 0"""
+    """Ob for got == exp (arrays of polynomials in the symbols); see module docstring"""
     if inp.mode != "sym":
         return Ob.eq(label, got, exp, key=key)
     from . import sym as _sym
@@ -109,12 +113,21 @@ def ob_eq_poly(inp, label, got, exp, key=None):
     e = np.asarray(exp, dtype=object)
     if g.shape != e.shape:
         return Ob.holds(label + " (shape)", False, key=key)
-    # cheap first: syntactically identical terms (what the framework's own simplification sees)
+    # 1. syntactically identical terms (what the framework's own simplification sees)
     raw = z3.simplify(_sym.neq_any(g, e))
     if z3.is_false(raw):
         return Ob.eq(label, got, exp, key=key)
-    if len(raw.sexpr()) > MAX_NORMALISE_CHARS:
-        return Ob.eq(label, got, exp, key=key)          # too large to expand: left to the solver as it is
     side = list(_sym.CTX.pc) if _sym.CTX is not None else []
     side += list(inp.assumptions)
-    return PolyOb(label, norm_diff(g, e), key=key, side_formulas=side)
+    # 2. violation side: a point where the raw difference is non-zero
+    terms, bad = _diff_terms(g, e)
+    if bad:
+        return PolyOb(label, got, exp, terms, True, None, key=key)
+    point = _find_point(terms, side)
+    if point is not None:
+        return PolyOb(label, got, exp, terms, False, point, key=key)
+    # 3. holds side: normal form (identity -> literal 0); too large -> left to the solver as it is
+    if len(raw.sexpr()) > MAX_NORMALISE_CHARS:
+        return Ob.eq(label, got, exp, key=key)
+    nterms, nbad = _diff_terms(norm_diff(g, e), np.vectorize(lambda x: S(0), otypes=[object])(g))
+    return PolyOb(label, got, exp, nterms, nbad, None, key=key)
